@@ -161,8 +161,13 @@ test_sequence = [
     (
         # ops_set
         memcpy_ops,
-        # incompatible_pack_flags
-        PassFlags.Cpu | PassFlags.MemoryOnly | PassFlags.Mac | PassFlags.Main | PassFlags.PostFusingLimited,
+        # incompatible_pack_flags (a DMA cannot apply an activation function: no packing with a Post op)
+        PassFlags.Cpu
+        | PassFlags.MemoryOnly
+        | PassFlags.Mac
+        | PassFlags.Main
+        | PassFlags.Post
+        | PassFlags.PostFusingLimited,
         # flags_to_set
         PassFlags.Npu | PassFlags.Memcpy | PassFlags.Main,
         # flags_to_clear
@@ -244,6 +249,15 @@ def pack_into_passes(nng, arch, verbose_packing=False):
                         if flags_to_set & PassFlags.Npu:
                             if not curr_op.run_on_npu:
                                 continue
+
+                        if (
+                            curr_flags & (PassFlags.Post | PassFlags.PostFusingLimited)
+                            and flags_to_set & PassFlags.Main
+                            and curr_op.activation is not None
+                        ):
+                            # The activation op already in this pass is fused into the pass' main operation. An operation
+                            # that has an activation function of its own (e.g. a LUT) cannot take a second one
+                            continue
 
                         reverse_ops_list.append(curr_op)
                         new_block_type = curr_op.type.npu_block_type
